@@ -111,3 +111,56 @@ Theorem c19_src_peek : forall k b, Forall is_byte b ->
   go_peek k b = match peek 8 k b with None => Lib.GoSem.Panic | Some v => Lib.GoSem.Ok v end.
 Proof. exact src_peek. Qed.
 Print Assumptions c19_src_peek.
+
+(* ------------------------------------------------------------------------------------------
+   What must NOT change (no hypothesis on kinds, values or buffers): a write only appends, a read
+   only drops a prefix of its width (the remaining unread bytes are untouched, whatever the
+   buffer holds), a peek and Bytes() leave the buffer as it is. *)
+Theorem c19_frame : forall ws k v b,
+  write ws k v b = b ++ enc ws k v /\
+  snd (read ws k b) = skipn (width ws k) b /\
+  fst (Model.step ws b (OPeek k)) = b /\ fst (Model.step ws b OBytes) = b.
+Proof.
+  intros ws k v b. split; [apply write_app|]. split; [apply read_suffix|]. split; [apply peek_keeps|reflexivity].
+Qed.
+Print Assumptions c19_frame.
+
+Example c19_frame_example :
+  write 8 KI16 (-2) [7; 9] = [7; 9; 254; 255] /\ snd (read 8 KU8 [7; 9; 254; 255]) = [9; 254; 255] /\
+  snd (read 8 KU64 [7; 9]) = [] /\ fst (Model.step 4 [7; 9] (OPeek KU64)) = [7; 9].
+Proof. repeat split. Qed.
+
+(* The width / little-endian / read-back sentences stated on the methods regenerated from
+   qnet/buffer.go themselves (word size 8): the translated Write<kind> appends exactly the width
+   of the kind, in little-endian order, to whatever the buffer holds, and the translated
+   Read<kind> / Peek<kind> give the value back from those bytes whatever follows them. *)
+Theorem c19_src_width : forall k v b, wf 8 k v ->
+  go_write k b v = Lib.GoSem.Ok (b ++ enc 8 k v) /\
+  length (enc 8 k v) = width 8 k /\
+  forall i, (i < width 8 k)%nat -> nth i (enc 8 k v) 0 = (ubits 8 k v / 256 ^ Z.of_nat i) mod 256.
+Proof.
+  intros k v b Hwf. rewrite (src_write k v b Hwf), write_app. split; [reflexivity|]. split; [apply enc_length|].
+  intros i Hi. exact (enc_nth 8 k v i (or_intror eq_refl) Hwf Hi).
+Qed.
+Print Assumptions c19_src_width.
+
+Theorem c19_src_value_roundtrip : forall k v rest, wf 8 k v -> Forall is_byte rest ->
+  go_read k (enc 8 k v ++ rest) = Lib.GoSem.Ok (v, rest) /\
+  go_peek k (enc 8 k v ++ rest) = Lib.GoSem.Ok v.
+Proof.
+  intros k v rest Hwf Hrest.
+  assert (Hb : Forall is_byte (enc 8 k v ++ rest))
+    by (apply Forall_app; split; [apply enc_bytes; [right; reflexivity|assumption]|assumption]).
+  rewrite (src_read k _ Hb), (src_peek k _ Hb).
+  rewrite (read_enc 8 k v rest (or_intror eq_refl) Hwf), (peek_enc 8 k v rest (or_intror eq_refl) Hwf).
+  split; reflexivity.
+Qed.
+Print Assumptions c19_src_value_roundtrip.
+
+Example c19_src_example :
+  wf 8 KI32 (-2) /\ go_write KI32 [1] (-2) = Lib.GoSem.Ok [1; 254; 255; 255; 255] /\
+  go_read KI32 [254; 255; 255; 255; 5] = Lib.GoSem.Ok (-2, [5]).
+Proof.
+  split; [unfold wf, in_s; split; [apply Z.leb_le|apply Z.ltb_lt]; vm_compute; reflexivity|].
+  split; vm_compute; reflexivity.
+Qed.
